@@ -1633,3 +1633,411 @@ class C08Element(ParserHarness):
             avail = zand(self.listed, (self.mask & self.fv) != 0)
             self.require(ex, (rs.variant == 'Ok') == avail if isinstance(avail, bool) else (avail if rs.variant == 'Ok' else znot(avail)),
                          'strict loading accepts a sub-element that is unknown or not available in the file version (or rejects one that is)')
+
+
+# =====================================================================================================
+# parse_element on short token sequences: the real tokenizer + the real recursive-descent element parser, executed on
+# their MIR against a four-type mini schema (the specification crate's answers are given by the harness)
+# =====================================================================================================
+MINI_TOKENS = [b'<AR-PACKAGES>', b'</AR-PACKAGES>', b'<AR-PACKAGE>', b'</AR-PACKAGE>', b'<SHORT-NAME>', b'</SHORT-NAME>', b'<CATEGORY>', b'</CATEGORY>',
+               None, b'<!--c-->', b'</AUTOSAR>']
+TK_TEXT, TK_COMMENT, TK_END_ROOT = 8, 9, 10
+# type ids of the mini schema (it mirrors the real one for these elements, so that counterexamples replay through load_buffer)
+T_ROOT, T_PKGS, T_PKG, T_SN, T_CAT = 1, 2, 3, 4, 5
+
+
+def ident_validator(ex, args):
+    """[a-zA-Z][a-zA-Z0-9_]* - the pattern of SHORT-NAME and CATEGORY values"""
+    from models import is_alpha, is_digit
+    bs = as_bytes_list(ex, args[0])
+    if not bs:
+        return False
+    return zand(is_alpha(bs[0]), *[z3.Or(is_alpha(b), is_digit(b), b == 0x5f) for b in bs[1:]])
+
+
+def install_mini_schema(ex, h):
+    """answers of autosar-data-specification for: AUTOSAR > AR-PACKAGES (0..1) > AR-PACKAGE* > SHORT-NAME (1), CATEGORY (0..1, version
+    mask symbolic), AR-PACKAGES (0..1); SHORT-NAME and CATEGORY are identifier-typed character elements"""
+    M = ex.models
+    tab = string_table('elementname.rs')
+    idx_of = {t: i for i, t in enumerate(tab)}
+    N_PKGS, N_PKG, N_SN, N_CAT, N_ROOT = idx_of[b'AR-PACKAGES'], idx_of[b'AR-PACKAGE'], idx_of[b'SHORT-NAME'], idx_of[b'CATEGORY'], idx_of[b'AUTOSAR']
+    h.ids = dict(pkgs=N_PKGS, pkg=N_PKG, sn=N_SN, cat=N_CAT, root=N_ROOT)
+    subs = {T_ROOT: [(N_PKGS, T_PKGS, 'ZeroOrOne', None)], T_PKGS: [(N_PKG, T_PKG, 'Any', None)],
+            T_PKG: [(N_SN, T_SN, 'One', None), (N_CAT, T_CAT, 'ZeroOrOne', 'cat'), (N_PKGS, T_PKGS, 'ZeroOrOne', None)], T_SN: [], T_CAT: []}
+    h.subs = subs
+    str_spec = Ref(Cell(spec_pattern(ident_validator, 128)))
+
+    def tid(a):
+        t = ex.deref(a) if isinstance(a, (Ref, ElemRef)) else a
+        return t.fields[1].conc()
+
+    def mask_of(entry):
+        return h.cat_mask if entry[3] == 'cat' else bv(0xffffffff, 32)
+
+    def from_bytes(ex_, c, a):
+        bs = [z3.simplify(x) for x in as_bytes_list(ex_, a[0])]
+        if not all(z3.is_bv_value(x) for x in bs):
+            raise Unsupported('symbolic element name')
+        key = bytes(x.as_long() for x in bs)
+        if key in idx_of:
+            return ok(mk_int(idx_of[key], 'u16'))
+        return err(Opaque('ParseElementNameError'))
+
+    def find_sub_element(ex_, c, a):
+        t = tid(a[0])
+        name = a[1].conc()
+        ver = a[2]
+        for i, e in enumerate(subs[t]):
+            if e[0] == name:
+                if ex_.decide((mask_of(e) & ver.e) != 0):
+                    return some(Agg('tuple', None, [Agg('ElementType', None, [mk_int(0, 'u16'), mk_int(e[1], 'u16')]), VecV([usize(i)])]))
+                return NONE()
+        return NONE()
+
+    def entry(a_t, a_idx):
+        t = tid(a_t)
+        i = ex.deref(a_idx).items()[0].conc() if isinstance(a_idx, (Ref,)) else a_idx.items()[0].conc()
+        return subs[t][i]
+    adds = [
+        (r'^autosar_data_specification::ElementName::from_bytes$', from_bytes),
+        (r'^autosar_data_specification::ElementType::find_sub_element$', find_sub_element),
+        (r'^autosar_data_specification::ElementType::get_sub_element_version_mask$', lambda ex_, c, a: some(I(mask_of(entry(a[0], a[1])), False, 'u32'))),
+        (r'^autosar_data_specification::ElementType::get_sub_element_multiplicity$', lambda ex_, c, a: some(Agg('ElementMultiplicity', entry(a[0], a[1])[2], []))),
+        (r'^autosar_data_specification::ElementType::get_sub_element_container_mode$', lambda ex_, c, a: Agg('ContentMode', 'Sequence', [])),
+        (r'^autosar_data_specification::ElementType::find_common_group$', lambda ex_, c, a: Agg('GroupType', None, [])),
+        (r'^(autosar_data_specification::)?GroupType::content_mode$', lambda ex_, c, a: Agg('ContentMode', 'Sequence', [])),
+        (r'^autosar_data_specification::ElementType::content_mode$', lambda ex_, c, a: Agg('ContentMode', 'Characters' if tid(a[0]) in (T_SN, T_CAT) else 'Sequence', [])),
+        (r'^autosar_data_specification::ElementType::chardata_spec$', lambda ex_, c, a: some(str_spec) if tid(a[0]) in (T_SN, T_CAT) else NONE()),
+        (r'^autosar_data_specification::ElementType::is_ref$', lambda ex_, c, a: False),
+        (r'^autosar_data_specification::ElementType::is_named_in_version$', lambda ex_, c, a: tid(a[0]) == T_PKG),
+        (r'^autosar_data_specification::ElementType::is_named$', lambda ex_, c, a: tid(a[0]) == T_PKG),
+        (r'^<ElementMultiplicity as PartialEq>::(eq|ne)$', lambda ex_, c, a: (ex_.deref(a[0]).variant == ex_.deref(a[1]).variant) == c.endswith('eq')),
+        (r'^<&\[usize\] as PartialEq<&Vec<usize>>>::eq$', lambda ex_, c, a: [v.conc() for v in ex_.deref(a[0]).items()] == [v.conc() for v in ex_.deref(ex_.deref(a[1])).items]),
+        (r'^core::slice::<impl \[usize\]>::is_empty$', lambda ex_, c, a: ex_.length_of(a[0]) == 0),
+        (r'^Vec::<usize>::new$', lambda ex_, c, a: VecV()),
+        (r'^std::sync::Arc::<.*>::new$', lambda ex_, c, a: Agg('Arc', None, [Ref(Cell(a[0]))])),
+        (r'^std::sync::Arc::<.*>::downgrade$', lambda ex_, c, a: Opaque('Weak')),
+        (r'^parking_lot::lock_api::RwLock::<.*>::new$', lambda ex_, c, a: Agg('RwLock', None, [a[0]])),
+        (r'^std::collections::HashSet::<.*>::with_capacity$', lambda ex_, c, a: Opaque('HashSet')),
+        (r"^<Cow<'_, str> as Into<std::string::String>>::into$", lambda ex_, c, a: Str(as_bytes_list(ex_, a[0].fields[0]))),
+        (r"^<Cow<'_, str> as From<std::string::String>>::from$", lambda ex_, c, a: Agg('Cow', 'Owned', [a[0]])),
+        (r"^<Cow<'_, str> as AsRef<str>>::as_ref$", lambda ex_, c, a: Slice(as_bytes_list(ex_, ex_.deref(a[0]).fields[0]), 0, len(as_bytes_list(ex_, ex_.deref(a[0]).fields[0])), True)),
+    ]
+    install_attr_models(M, [])
+    for variant, text in (('ShortName', b'SHORT-NAME'), ('Autosar', b'AUTOSAR'), ('ArPackage', b'AR-PACKAGE'), ('ArPackages', b'AR-PACKAGES'), ('Category', b'CATEGORY')):
+        v = mk_int(idx_of[text], 'u16')
+        M.consts[f'autosar_data_specification::ElementName::{variant}'] = v
+        M.consts[f'ElementName::{variant}'] = v
+    for pat, fn in adds:
+        M.add(pat, fn, prefer=True)
+        M.rx.insert(0, M.rx.pop())
+
+
+@register
+class ParseElementDoc(E2Harness):
+    """body of the root element given as a sequence of tokens (indices into MINI_TOKENS); text tokens are one symbolic byte"""
+    tokens = [0, 2, 4, 8, 5, 3, 1, 10]
+    sym_texts = 99          # text tokens beyond this many are the concrete letter x
+    native = ('data', 'n_parse_element_doc')
+    max_visits = 4096
+    max_steps = 400000
+    bound_is_hang = True
+
+    def build_doc(self, ex):
+        doc = []
+        self.text = []
+        for t in self.tokens:
+            tok = MINI_TOKENS[t]
+            if tok is None:
+                if len(self.text) < self.sym_texts:
+                    b = z3.BitVec(f'text{len(self.text)}', 8)
+                    ex.assume(z3.And(b != 0x3c, z3.ULT(b, 0x80)))
+                else:
+                    b = bv(0x78, 8)
+                self.text.append(b)
+                doc.append(b)
+            else:
+                doc.extend(bv(c, 8) for c in tok)
+        return doc
+
+    def run(self, ex):
+        install_mini_schema(ex, self)
+        self.fv = z3.BitVec('fileversion', 32)
+        ex.assume(z3.And(self.fv != 0, (self.fv & (self.fv - 1)) == 0, z3.ULT(self.fv, 1 << 21)))
+        self.cat_mask = z3.BitVec('category_version_mask', 32)
+        f_new = find_fn(ex.prog, '::new', 'lexer.rs')
+        f_pe = find_fn(ex.prog, '::parse_element', 'parser.rs')
+        f_end = find_fn(ex.prog, '::verify_end_of_input', 'parser.rs')
+        doc = self.build_doc(ex)
+        outs = []
+        for strict in (True, False):
+            p = mk_parser(strict, usize(1))
+            p.fields[P_FILEVERSION] = I(self.fv, False, 'u32')
+            pcell = Cell(p)
+            self._pref = lambda _p, _c=pcell: Ref(_c)
+            lx = ex.call(f_new, [Slice(list(doc), 0, len(doc), False), Opaque('PathBuf')])
+            root = Agg('ElementRaw', None, [Agg('ElementOrModel', 'None', []), mk_int(self.ids['root'], 'u16'),
+                                            Agg('ElementType', None, [mk_int(0, 'u16'), mk_int(T_ROOT, 'u16')]),
+                                            VecV([], ty='SmallVec'), VecV([], ty='SmallVec'), Opaque('HashSet'), NONE()])
+            lxc = Cell(lx)
+            r = ex.call(f_pe, [Ref(pcell), root, Agg('Cow', 'Borrowed', [Slice([], 0, 0, True)]), Ref(lxc)])
+            if r.variant == 'Ok':
+                # parse_arxml: the root element must be followed by nothing but white space / comments
+                r2 = ex.call(f_end, [Ref(pcell), Ref(lxc)])
+                if r2.variant == 'Err':
+                    r = r2
+            outs.append((r, p))
+        return outs
+
+    def replay_vals(self, m):
+        return ([le_bytes(len(self.tokens), 8)] + [[t] for t in self.tokens] + [[x] for x in model_bytes(m, self.text)] +
+                [le_bytes(m.eval(self.fv, model_completion=True).as_long(), 4), le_bytes(m.eval(self.cat_mask, model_completion=True).as_long(), 4),
+                 [{'c01': 1, 'c02': 2, 'c08': 8}[self.aspect]]])
+
+    def describe(self, m):
+        it = iter(model_bytes(m, self.text))
+        s = b''.join((MINI_TOKENS[t] if MINI_TOKENS[t] is not None else bytes([next(it)])) for t in self.tokens)
+        return f"{s!r} fileversion={m.eval(self.fv, model_completion=True)} category_mask={m.eval(self.cat_mask, model_completion=True)}"
+
+    # ---- independent reading of the token sequence against the mini schema ----
+    def reference(self, ex):
+        """returns (wellformed: python bool or z3 Bool, tree) ; forks on the symbolic text bytes / masks where needed"""
+        toks = list(self.tokens)
+        ti = iter(self.text)
+        pos = 0
+        names = {0: 'pkgs', 2: 'pkg', 4: 'sn', 6: 'cat'}
+        ends = {1: 'pkgs', 3: 'pkg', 5: 'sn', 7: 'cat', 10: 'root'}
+        allowed = {'root': {'pkgs'}, 'pkgs': {'pkg'}, 'pkg': {'sn', 'cat', 'pkgs'}, 'sn': set(), 'cat': set()}
+        single = {'root': {'pkgs'}, 'pkgs': set(), 'pkg': {'sn', 'cat', 'pkgs'}}
+        conds = []
+
+        def parse(kind):
+            nonlocal pos
+            children = []
+            seen = set()
+            text = []
+            content = []
+            pending_comment = False
+            while True:
+                if pos >= len(toks):
+                    return None                      # unexpected end of input
+                t = toks[pos]
+                pos += 1
+                if t in names:
+                    k = names[t]
+                    if k not in allowed[kind]:
+                        return None                  # unknown in this context (incl. sub-elements inside character elements)
+                    if k in single.get(kind, ()):
+                        if k in seen:
+                            return None              # single-occurrence sub-element repeated
+                        seen.add(k)
+                    if k == 'cat':
+                        conds.append((self.cat_mask & self.fv) != 0)
+                    had_comment = pending_comment
+                    pending_comment = False
+                    sub = parse(k)
+                    if sub is None:
+                        return None
+                    sub['comment'] = had_comment
+                    children.append((k, sub))
+                    content.append(('elem', k, sub))
+                elif t in ends:
+                    if ends[t] != kind:
+                        return None
+                    if kind == 'pkg' and 'sn' not in seen:
+                        return None                  # SHORT-NAME missing
+                    return dict(children=children, text=text, content=content)
+                elif t == TK_TEXT:
+                    # adjacent text tokens are ONE run of character data for the tokenizer
+                    run = [next(ti)]
+                    while pos < len(toks) and toks[pos] == TK_TEXT:
+                        run.append(next(ti))
+                        pos += 1
+                    val = ref_trim(ex, run)
+                    if not val:
+                        continue                     # white-space-only text is not a token
+                    if kind not in ('sn', 'cat'):
+                        return None                  # character content forbidden
+                    from models import is_alpha, is_digit
+                    if not ex.decide(is_alpha(val[0])):
+                        return None                  # identifier: a letter first
+                    for b in val[1:]:
+                        if not ex.decide(z3.Or(is_alpha(b), is_digit(b), b == 0x5f)):
+                            return None
+                    text.append(val)
+                    content.append(('text', val))
+                elif t == TK_COMMENT:
+                    pending_comment = True
+                    continue
+        tree = parse('root')
+        if tree is None:
+            return False, None
+        # data after the root element: anything but white space / comments
+        while pos < len(toks):
+            t = toks[pos]
+            pos += 1
+            if t == TK_COMMENT:
+                continue
+            if t == TK_TEXT:
+                if ex.decide(is_ws(next(ti))):
+                    continue
+            return False, None
+        return (zand(*conds) if conds else True), tree
+
+    aspect = 'c08'      # which property's assertions are active: c02 (total, lines) | c08 (strict/lenient, no holes) | c01 (faithful tree)
+
+    def same_tree(self, ex, elem, ref, kind):
+        """the loaded element equals the reference reading: sub-elements and text items in document order, comments attached"""
+        raw = elem.fields[0].fields[0].cell.v.fields[0]
+        names = {'pkgs': self.ids['pkgs'], 'pkg': self.ids['pkg'], 'sn': self.ids['sn'], 'cat': self.ids['cat'], 'root': self.ids['root']}
+        if raw.fields[1].conc() != names[kind]:
+            return False
+        items = raw.fields[3].items
+        if len(items) != len(ref['content']):
+            return False
+        conds = []
+        for it, rc in zip(items, ref['content']):
+            if rc[0] == 'text':
+                if it.variant != 'CharacterData' or it.fields[0].variant != 'String':
+                    return False
+                b = list(it.fields[0].fields[0].b)
+                if len(b) != len(rc[1]):
+                    return False
+                conds.append(bytes_eq(b, rc[1]))
+            else:
+                if it.variant != 'Element':
+                    return False
+                sub_raw = it.fields[0].fields[0].fields[0].cell.v.fields[0]
+                has_comment = sub_raw.fields[6].variant == 'Some'
+                if has_comment != rc[2]['comment']:
+                    return False
+                if has_comment and bytes(z3.simplify(x).as_long() for x in sub_raw.fields[6].fields[0].b) != b'c':
+                    return False
+                r = self.same_tree(ex, it.fields[0], rc[2], rc[1])
+                if r is False:
+                    return False
+                if r is not True:
+                    conds.append(r)
+        return zand(*conds) if conds else True
+
+    def prop(self, out, ex):
+        if out[0] == 'panic':
+            self.cover('panic')
+            if self.aspect == 'c02':
+                self.require(ex, False, 'panic while parsing: ' + out[1])
+            return
+        (rs, ps), (rl, pl) = out[1]
+        wl = warnings_of(pl)
+        self.cover('strict accepts' if rs.variant == 'Ok' else 'strict rejects')
+        if self.aspect == 'c01':
+            for r in (rs, rl):
+                if r.variant == 'Ok' and (r is rs or len(wl) == 0):
+                    okref, tree = self.reference(ex)
+                    if tree is not None:
+                        self.require(ex, self.same_tree(ex, r.fields[0], tree, 'root'), 'the loaded tree differs from the document (elements, text items, order, attached comments)')
+            return
+        if self.aspect == 'c02':
+            for r, p in out[1]:
+                if r.variant == 'Err':
+                    e = r.fields[0]
+                    if isinstance(e, Agg) and e.variant in ('ParserError', 'LexerError'):
+                        ln = e.fields[1]
+                        total = bv(1, 64)
+                        for b in self.text:
+                            total = total + z3.If(b == 0x0a, bv(1, 64), bv(0, 64))
+                        self.require(ex, z3.And(z3.UGE(ln.e, 1), z3.ULE(ln.e, total)), 'error names a line outside the document')
+            return
+        for r, p in []:
+            if r.variant == 'Err':
+                e = r.fields[0]
+                if isinstance(e, Agg) and e.variant in ('ParserError', 'LexerError'):
+                    ln = e.fields[1]
+                    total = bv(1, 64)
+                    for b in self.text:
+                        total = total + z3.If(b == 0x0a, bv(1, 64), bv(0, 64))
+                    self.require(ex, z3.And(z3.UGE(ln.e, 1), z3.ULE(ln.e, total)), 'error names a line outside the document')
+        if rs.variant == 'Ok':
+            self.require(ex, rl.variant == 'Ok' and len(wl) == 0, 'strict accepts a document that lenient rejects or warns about')
+            okref, tree = self.reference(ex)
+            self.require(ex, okref, 'strict loading accepts a document that violates the schema (unknown / repeated / version-foreign sub-element, missing SHORT-NAME, character content, nesting, trailing data)')
+        else:
+            if rl.variant == 'Ok':
+                self.require(ex, len(wl) > 0, 'lenient silently accepts a document that strict rejects')
+                if wl:
+                    se = rs.fields[0]
+                    if se.variant == 'ParserError' and wl[0].variant == 'ParserError':
+                        self.require(ex, se.fields[2].variant == wl[0].fields[2].variant, f'strict error ({se.fields[2].variant}) is not the first lenient warning ({wl[0].fields[2].variant})')
+                    else:
+                        self.require(ex, False, 'strict error is not the first lenient warning')
+
+
+VALID_DOCS = [
+    [10],
+    [0, 1, 10],
+    [0, 2, 4, 8, 5, 3, 1, 10],
+    [9, 0, 9, 2, 4, 8, 5, 3, 1, 10],
+    [0, 2, 4, 8, 5, 6, 8, 7, 3, 1, 10],
+    [0, 2, 4, 8, 5, 3, 2, 4, 8, 5, 3, 1, 10],
+    [0, 2, 4, 8, 5, 0, 2, 4, 8, 5, 3, 1, 3, 1, 10],
+    # invalid seeds (their single-token neighbourhoods are explored too)
+    [0, 2, 4, 8, 5, 4, 8, 5, 3, 1, 10],          # SHORT-NAME twice
+    [0, 2, 4, 8, 5, 6, 8, 7, 6, 8, 7, 3, 1, 10],  # CATEGORY twice
+    [0, 1, 0, 1, 10],                             # AR-PACKAGES twice
+    [0, 2, 6, 8, 7, 3, 1, 10],                    # SHORT-NAME missing
+]
+
+
+@register
+class ParseElementDocs(ParseElementDoc):
+    """all token sequences of length exactly `length` over MINI_TOKENS (partition i of k by sequence number)"""
+    length = 3
+    part = None
+    base = None          # index into VALID_DOCS: instead of all sequences of one length, all single-token edits of that valid document
+
+    def sequences(self):
+        import itertools
+        if self.base is None:
+            yield from itertools.product(range(len(MINI_TOKENS)), repeat=self.length)
+            return
+        doc = VALID_DOCS[self.base]
+        yield tuple(doc)
+        n = len(MINI_TOKENS)
+        for i in range(len(doc)):
+            yield tuple(doc[:i] + doc[i + 1:])                       # delete
+            yield tuple(doc[:i] + [doc[i]] + doc[i:])                # duplicate
+            for t in range(n):
+                if t != doc[i]:
+                    yield tuple(doc[:i] + [t] + doc[i + 1:])         # replace
+        for i in range(len(doc) + 1):
+            for t in range(n):
+                yield tuple(doc[:i] + [t] + doc[i:])                 # insert
+
+    def execute(self, prog, known=()):
+        import time
+        t0 = time.time()
+        total = None
+        nseq = 0
+        for num, seq in enumerate(self.sequences()):
+            if self.part is not None and num % self.part[1] != self.part[0]:
+                continue
+            self.tokens = list(seq)
+            r = E2Harness.execute(self, prog, known)
+            nseq += 1
+            if total is None:
+                total = r
+            else:
+                for k2, v in r['stats'].items():
+                    if isinstance(v, (int, float)):
+                        total['stats'][k2] = total['stats'].get(k2, 0) + v
+                total['functions_executed'] = sorted(set(total['functions_executed']) | set(r['functions_executed']))
+                total['models_used'] = sorted(set(total['models_used']) | set(r['models_used']))
+            if len(self.violations) >= 8:
+                break
+        total['violations'] = self.violations
+        total['inconclusive'] = sorted(set(self.inconclusive))[:10]
+        total['covers'] = dict(self.covers, sequences=nseq)
+        total['status'] = 'fail' if self.violations else ('inconclusive' if self.inconclusive else 'pass')
+        total['stats']['wall_s'] = round(time.time() - t0, 2)
+        total['hang'] = getattr(self, 'hang', False)
+        return total
